@@ -12,6 +12,7 @@ func FindScenario(name string) *explore.Scenario {
 	all = append(all, c17Scenarios()...)
 	all = append(all, c16Scenarios()...)
 	all = append(all, c15Scenarios()...)
+	all = append(all, c05Scenarios()...)
 	for _, g := range c07Groups() {
 		if g.Name == name {
 			return c07Scenario(g)
